@@ -372,7 +372,7 @@ def run(c):
                  ([dict(id=1, kind='line', file='a', line='f_plain', span='none')],
                   [[('a.f', [('cfg', 0), ('call', 'a.f', [('cfg', 255), ('line',), ('line',)]), ('line',)])]])]
     traces, meta = run_scenarios(c, rng, wd, 60 if quick else 1500, 0.2, 'placement', 'p', curated=same_name)
-    reconfig_race_leg(c, wd, 2, 60 if quick else 3000)
+    reconfig_race_leg(c, wd, 1 if quick else 2, 600 if quick else 4000)      # (quick: every schedule with one forced switch)
     registration_race_leg(c, wd, 1 if quick else 2, 400 if quick else 4000)
     validate(c, traces, meta, lambda m: m['firings'] >= 3, ideal=True)
     c.extra['events_judged'] = sum(m['events'] for m in meta)
